@@ -96,7 +96,7 @@ def check_case(case, cell):
         model = bool(Aref.sdist(a_pt)[0] <= band and Bref.sdist(b_pt)[0] <= band)
         fails.append(fail("contact-outside/" + tag,
                           "contact position is %.3g outside A / %.3g outside B (band %.3g)" % (sa, sb, band),
-                          midpoint_model=model, depth=depth, outside=max(sa, sb)))
+                          midpoint_model=model, depth=depth, outside=max(sa, sb), pd_hi=pd_hi))
     nt = pd_lo >= 10 * band or any(l in ("mode:centre", "mode:identical") for l in labels)
     return fails, {"labels": labels, "nontrivial": bool(nt)}
 
@@ -116,6 +116,9 @@ def match_known(f, case, known):
         if A.flat and B.flat and A.kind in ("disk", "ellipse") and B.kind in ("disk", "ellipse"):
             if abs(float(A.R[:, 2].dot(B.R[:, 2]))) >= 1.0 - 1e-9:
                 return "C08-K3"
+    if "C08-K4" in ids and f["bucket"].startswith("contact-outside/") and \
+            d.get("pd_hi", 1.0) <= 2e-3 * S.truth(case)["L"]:
+        return "C08-K4"
     if "C08-K1" in ids and f["bucket"].startswith("contact-outside/") and d.get("midpoint_model"):
         L = S.truth(case)["L"]
         if d["outside"] <= 0.5 * d["depth"] + 2e-3 * L:
